@@ -1,14 +1,16 @@
 (* Extraction of the executable models and specs to OCaml. ExtrOcamlBasic only: bool, option, unit,
    list, prod, sumbool, sumor mapped to OCaml's; N, Z, positive, nat stay Coq datatypes. *)
-From HV Require Import Base_Bytes Spec_SHA Spec_HMAC Model_BlockHash Model_Sha2Ctx Model_Sha1Ctx Model_Hash Model_Hmac Model_CtEq.
+From HV Require Import Base_Bytes Spec_SHA Spec_HMAC Model_BlockHash Model_Sha2Ctx Model_Sha1Ctx Model_Hash Model_Hmac Base_Result Spec_OTP Model_Otp Model_CtEq.
 Require Import ExtrOcamlBasic.
 Extraction Language OCaml.
 Extraction "model.ml"
-  N.add N.mul N.div N.modulo N.of_nat N.to_nat Z.add Z.mul Z.opp Z.of_N Z.to_N
+  N.add N.sub N.mul N.div N.modulo N.pow N.of_nat N.to_nat Z.add Z.mul Z.opp Z.of_N Z.to_N
   bytes_okb be_bytes hex_of_bytes
   SHA_spec
   sha256_init sha256_update sha256_finish sha512_init sha512_update sha512_finish sha512_finish_pinned fresh2
   sha1_init sha1_update sha1_finish fresh1
   hfresh hinit hupdate hfinish hash_oneshot hash_hexstr sha512_oneshot_pinned
   HMAC_spec get_hmac_raw get_hmac_str to_hex hc_new hmac_init hmac_update hmac_final
+  HOTP_spec TOTP_spec DT hotp_from_digest get_hotp_code get_totp_code_at get_totp_code
+  is_totp_token_valid_at is_totp_token_valid_now
   ct_equals.
